@@ -50,6 +50,10 @@ DM(is)    == Op("Done", is, 0)
 Wt(i)     == Op("Wait", <<i>>, 0)
 BN(n)     == Op("BeginNext", <<>>, n)
 DMine     == Op("DoneMine", <<>>, 0)
+\* transaction oracle on top of the watermark (txn.go, property C05)
+TxB       == Op("TxBegin", <<>>, 0)     \* db.NewTransaction: oracle.readTs
+TxC       == Op("TxCommit", <<>>, 0)    \* txn.Commit: newCommitTs, apply, doneCommit
+TxR       == Op("TxRead", <<>>, 0)      \* txn.Get of every key
 
 Count(s, i) == Cardinality({j \in 1..Len(s) : s[j] = i})
 InWin(i, w) == i >= w.base /\ i < w.base + Len(w.slots)
@@ -74,6 +78,8 @@ variables
   late = {},                \* witness: index counted (or dropped) by Begin after it had been examined as zero
   raced = {},               \* witness: Begin's Add hit a replaced window / an already copied slot, or tryAdvance read a replaced window
   waitBad = {},             \* pending indices <= i at the moment a WaitForMark(i) returned
+  applied = {},             \* commit timestamps whose writes are in the store (C05)
+  readBad = {},             \* threads that read at a timestamp whose commit was not applied yet (C05)
   wref = [t \in Threads |-> 0],   \* per thread: the window it holds a reference to
   ri   = [t \in Threads |-> 0];   \* per thread: next slot to copy in rebuildWindowLocked
 
@@ -102,25 +108,32 @@ macro AfterAdvance() {
   else {
     if (kind = "Begin") {
       bret := [i \in 1..MaxI |-> bret[i] + Count(idxs, i)];
-      if (xl = self) { xl := 0; };
-    };
-    FinishOp();
+      if (tx = "commit") { goto c_begun; }       \* newCommitTs goes on under the oracle lock
+      else { if (xl = self) { xl := 0; }; FinishOp(); }
+    } else { tx := ""; FinishOp(); }
   }
 }
 
 macro WaitReturns() {
-  waitBad := waitBad \cup {j \in PendingSet : j <= idxs[1]};
+  if (kind = "Wait") { waitBad := waitBad \cup {j \in PendingSet : j <= idxs[1]}; };
   FinishOp();
 }
 
 process (thread \in Threads)
 variables opi = 1, kind = "", idxs = <<>>, k = 0, delta = 0, phase = "",
           eidx = 0, ewk = "", slcur = 0, d = 0, nxt = 0,
-          newBase = 0, newSlots = <<>>, mine = <<>>;
+          newBase = 0, newSlots = <<>>, mine = <<>>, tx = "", rts = 0;
 {
 op:
   if (opi > Len(Prog(self))) { goto Done; }
   else if (Prog(self)[opi].op = "BeginNext") { goto xlock; }
+  else if (Prog(self)[opi].op = "TxBegin") { kind := "TxBegin"; rts := nextIdx - 1; goto r_next; }
+  else if (Prog(self)[opi].op = "TxCommit") { goto c_lock; }
+  else if (Prog(self)[opi].op = "TxRead") {
+    \* Get of every key at rts: every commit <= rts has a timestamp already, so the newest one must be applied
+    if (rts > 0 /\ rts \notin applied) { readBad := readBad \cup {self}; };
+    FinishOp();
+  }
   else {
     with (o = Prog(self)[opi], is = IF o.op = "DoneMine" THEN mine ELSE o.is) {
       kind := IF o.op = "DoneMine" THEN "Done" ELSE o.op;
@@ -142,6 +155,35 @@ xlock:
     if (~CountFirst) { phase := "pre"; goto last_load; }
     else { phase := "add"; eidx := is[1]; ewk := "add"; goto win_load; }
   };
+
+\* ---- oracle.readTs (txn.go): load nextTxnTs (in the op step), clamp to txnMark.LastIndex(),
+\* readMark.Begin (a different watermark, not modelled), txnMark.WaitForMark(readTs)
+r_next:
+  if (lastIndex < rts) { rts := lastIndex; };
+r_last:
+  skip;
+r_begun:
+  idxs := <<rts>>;
+  goto wait_fast;
+
+\* ---- oracle.newCommitTs under the oracle mutex (xl), apply, doneCommit
+c_lock:
+  await xl = 0;
+  xl := self;
+  mine := <<nextIdx>>;
+  nextIdx := nextIdx + 1;
+c_ts:
+  kind := "Begin"; tx := "commit"; idxs := mine; k := 1; delta := 1;
+  if (~CountFirst) { phase := "pre"; goto last_load; }
+  else { phase := "add"; eidx := mine[1]; ewk := "add"; goto win_load; };
+c_begun:
+  xl := 0;
+  applied := applied \cup {mine[1]};       \* sendToWriteCh + req.Wait(): the writes are in the store
+c_done:
+  kind := "Done"; tx := "done"; idxs := mine; k := 1; delta := -1; phase := "add";
+  dcall := [i \in 1..MaxI |-> dcall[i] + Count(mine, i)];
+  eidx := mine[1]; ewk := "add";
+  goto win_load;
 
 last_load:
   slcur := lastIndex;
@@ -237,7 +279,8 @@ wait_park:
 } *)
 \* BEGIN TRANSLATION
 VARIABLES pc, scen, doneUntil, lastIndex, wins, curw, mu, waiters, xl, 
-          nextIdx, bret, dcall, examined, late, raced, waitBad, wref, ri
+          nextIdx, bret, dcall, examined, late, raced, waitBad, applied, 
+          readBad, wref, ri
 
 (* define statement *)
 Prog(t)    == scen.progs[t]
@@ -245,12 +288,12 @@ Pending(i) == bret[i] > dcall[i]
 PendingSet == {i \in 1..MaxI : Pending(i)}
 
 VARIABLES opi, kind, idxs, k, delta, phase, eidx, ewk, slcur, d, nxt, newBase, 
-          newSlots, mine
+          newSlots, mine, tx, rts
 
 vars == << pc, scen, doneUntil, lastIndex, wins, curw, mu, waiters, xl, 
-           nextIdx, bret, dcall, examined, late, raced, waitBad, wref, ri, 
-           opi, kind, idxs, k, delta, phase, eidx, ewk, slcur, d, nxt, 
-           newBase, newSlots, mine >>
+           nextIdx, bret, dcall, examined, late, raced, waitBad, applied, 
+           readBad, wref, ri, opi, kind, idxs, k, delta, phase, eidx, ewk, 
+           slcur, d, nxt, newBase, newSlots, mine, tx, rts >>
 
 ProcSet == (Threads)
 
@@ -270,6 +313,8 @@ Init == (* Global variables *)
         /\ late = {}
         /\ raced = {}
         /\ waitBad = {}
+        /\ applied = {}
+        /\ readBad = {}
         /\ wref = [t \in Threads |-> 0]
         /\ ri = [t \in Threads |-> 0]
         (* Process thread *)
@@ -287,46 +332,91 @@ Init == (* Global variables *)
         /\ newBase = [self \in Threads |-> 0]
         /\ newSlots = [self \in Threads |-> <<>>]
         /\ mine = [self \in Threads |-> <<>>]
+        /\ tx = [self \in Threads |-> ""]
+        /\ rts = [self \in Threads |-> 0]
         /\ pc = [self \in ProcSet |-> "op"]
 
 op(self) == /\ pc[self] = "op"
             /\ IF opi[self] > Len(Prog(self))
                   THEN /\ pc' = [pc EXCEPT ![self] = "Done"]
-                       /\ UNCHANGED << dcall, kind, idxs, k, delta, phase, 
-                                       eidx, ewk >>
+                       /\ UNCHANGED << dcall, readBad, opi, kind, idxs, k, 
+                                       delta, phase, eidx, ewk, rts >>
                   ELSE /\ IF Prog(self)[opi[self]].op = "BeginNext"
                              THEN /\ pc' = [pc EXCEPT ![self] = "xlock"]
-                                  /\ UNCHANGED << dcall, kind, idxs, k, delta, 
-                                                  phase, eidx, ewk >>
-                             ELSE /\ LET o == Prog(self)[opi[self]] IN
-                                       LET is == IF o.op = "DoneMine" THEN mine[self] ELSE o.is IN
-                                         /\ kind' = [kind EXCEPT ![self] = IF o.op = "DoneMine" THEN "Done" ELSE o.op]
-                                         /\ idxs' = [idxs EXCEPT ![self] = is]
-                                         /\ k' = [k EXCEPT ![self] = 1]
-                                         /\ IF o.op \in {"Done", "DoneMine"}
-                                               THEN /\ dcall' = [i \in 1..MaxI |-> dcall[i] + Count(is, i)]
-                                               ELSE /\ TRUE
-                                                    /\ dcall' = dcall
-                                         /\ IF o.op = "Wait"
-                                               THEN /\ pc' = [pc EXCEPT ![self] = "wait_fast"]
-                                                    /\ UNCHANGED << delta, 
-                                                                    phase, 
-                                                                    eidx, ewk >>
-                                               ELSE /\ IF o.op = "Begin" /\ ~CountFirst
-                                                          THEN /\ phase' = [phase EXCEPT ![self] = "pre"]
-                                                               /\ delta' = [delta EXCEPT ![self] = 1]
-                                                               /\ pc' = [pc EXCEPT ![self] = "last_load"]
-                                                               /\ UNCHANGED << eidx, 
-                                                                               ewk >>
-                                                          ELSE /\ phase' = [phase EXCEPT ![self] = "add"]
-                                                               /\ delta' = [delta EXCEPT ![self] = IF o.op = "Begin" THEN 1 ELSE -1]
-                                                               /\ eidx' = [eidx EXCEPT ![self] = is[1]]
-                                                               /\ ewk' = [ewk EXCEPT ![self] = "add"]
-                                                               /\ pc' = [pc EXCEPT ![self] = "win_load"]
+                                  /\ UNCHANGED << dcall, readBad, opi, kind, 
+                                                  idxs, k, delta, phase, eidx, 
+                                                  ewk, rts >>
+                             ELSE /\ IF Prog(self)[opi[self]].op = "TxBegin"
+                                        THEN /\ kind' = [kind EXCEPT ![self] = "TxBegin"]
+                                             /\ rts' = [rts EXCEPT ![self] = nextIdx - 1]
+                                             /\ pc' = [pc EXCEPT ![self] = "r_next"]
+                                             /\ UNCHANGED << dcall, readBad, 
+                                                             opi, idxs, k, 
+                                                             delta, phase, 
+                                                             eidx, ewk >>
+                                        ELSE /\ IF Prog(self)[opi[self]].op = "TxCommit"
+                                                   THEN /\ pc' = [pc EXCEPT ![self] = "c_lock"]
+                                                        /\ UNCHANGED << dcall, 
+                                                                        readBad, 
+                                                                        opi, 
+                                                                        kind, 
+                                                                        idxs, 
+                                                                        k, 
+                                                                        delta, 
+                                                                        phase, 
+                                                                        eidx, 
+                                                                        ewk >>
+                                                   ELSE /\ IF Prog(self)[opi[self]].op = "TxRead"
+                                                              THEN /\ IF rts[self] > 0 /\ rts[self] \notin applied
+                                                                         THEN /\ readBad' = (readBad \cup {self})
+                                                                         ELSE /\ TRUE
+                                                                              /\ UNCHANGED readBad
+                                                                   /\ IF opi[self] + 1 > Len(Prog(self))
+                                                                         THEN /\ opi' = [opi EXCEPT ![self] = opi[self] + 1]
+                                                                              /\ pc' = [pc EXCEPT ![self] = "Done"]
+                                                                         ELSE /\ opi' = [opi EXCEPT ![self] = opi[self] + 1]
+                                                                              /\ pc' = [pc EXCEPT ![self] = "op"]
+                                                                   /\ UNCHANGED << dcall, 
+                                                                                   kind, 
+                                                                                   idxs, 
+                                                                                   k, 
+                                                                                   delta, 
+                                                                                   phase, 
+                                                                                   eidx, 
+                                                                                   ewk >>
+                                                              ELSE /\ LET o == Prog(self)[opi[self]] IN
+                                                                        LET is == IF o.op = "DoneMine" THEN mine[self] ELSE o.is IN
+                                                                          /\ kind' = [kind EXCEPT ![self] = IF o.op = "DoneMine" THEN "Done" ELSE o.op]
+                                                                          /\ idxs' = [idxs EXCEPT ![self] = is]
+                                                                          /\ k' = [k EXCEPT ![self] = 1]
+                                                                          /\ IF o.op \in {"Done", "DoneMine"}
+                                                                                THEN /\ dcall' = [i \in 1..MaxI |-> dcall[i] + Count(is, i)]
+                                                                                ELSE /\ TRUE
+                                                                                     /\ dcall' = dcall
+                                                                          /\ IF o.op = "Wait"
+                                                                                THEN /\ pc' = [pc EXCEPT ![self] = "wait_fast"]
+                                                                                     /\ UNCHANGED << delta, 
+                                                                                                     phase, 
+                                                                                                     eidx, 
+                                                                                                     ewk >>
+                                                                                ELSE /\ IF o.op = "Begin" /\ ~CountFirst
+                                                                                           THEN /\ phase' = [phase EXCEPT ![self] = "pre"]
+                                                                                                /\ delta' = [delta EXCEPT ![self] = 1]
+                                                                                                /\ pc' = [pc EXCEPT ![self] = "last_load"]
+                                                                                                /\ UNCHANGED << eidx, 
+                                                                                                                ewk >>
+                                                                                           ELSE /\ phase' = [phase EXCEPT ![self] = "add"]
+                                                                                                /\ delta' = [delta EXCEPT ![self] = IF o.op = "Begin" THEN 1 ELSE -1]
+                                                                                                /\ eidx' = [eidx EXCEPT ![self] = is[1]]
+                                                                                                /\ ewk' = [ewk EXCEPT ![self] = "add"]
+                                                                                                /\ pc' = [pc EXCEPT ![self] = "win_load"]
+                                                                   /\ UNCHANGED << readBad, 
+                                                                                   opi >>
+                                             /\ rts' = rts
             /\ UNCHANGED << scen, doneUntil, lastIndex, wins, curw, mu, 
                             waiters, xl, nextIdx, bret, examined, late, raced, 
-                            waitBad, wref, ri, opi, slcur, d, nxt, newBase, 
-                            newSlots, mine >>
+                            waitBad, applied, wref, ri, slcur, d, nxt, newBase, 
+                            newSlots, mine, tx >>
 
 xlock(self) == /\ pc[self] = "xlock"
                /\ xl = 0
@@ -349,8 +439,99 @@ xlock(self) == /\ pc[self] = "xlock"
                                  /\ pc' = [pc EXCEPT ![self] = "win_load"]
                /\ UNCHANGED << scen, doneUntil, lastIndex, wins, curw, mu, 
                                waiters, bret, dcall, examined, late, raced, 
-                               waitBad, wref, ri, opi, slcur, d, nxt, newBase, 
-                               newSlots >>
+                               waitBad, applied, readBad, wref, ri, opi, slcur, 
+                               d, nxt, newBase, newSlots, tx, rts >>
+
+r_next(self) == /\ pc[self] = "r_next"
+                /\ IF lastIndex < rts[self]
+                      THEN /\ rts' = [rts EXCEPT ![self] = lastIndex]
+                      ELSE /\ TRUE
+                           /\ rts' = rts
+                /\ pc' = [pc EXCEPT ![self] = "r_last"]
+                /\ UNCHANGED << scen, doneUntil, lastIndex, wins, curw, mu, 
+                                waiters, xl, nextIdx, bret, dcall, examined, 
+                                late, raced, waitBad, applied, readBad, wref, 
+                                ri, opi, kind, idxs, k, delta, phase, eidx, 
+                                ewk, slcur, d, nxt, newBase, newSlots, mine, 
+                                tx >>
+
+r_last(self) == /\ pc[self] = "r_last"
+                /\ TRUE
+                /\ pc' = [pc EXCEPT ![self] = "r_begun"]
+                /\ UNCHANGED << scen, doneUntil, lastIndex, wins, curw, mu, 
+                                waiters, xl, nextIdx, bret, dcall, examined, 
+                                late, raced, waitBad, applied, readBad, wref, 
+                                ri, opi, kind, idxs, k, delta, phase, eidx, 
+                                ewk, slcur, d, nxt, newBase, newSlots, mine, 
+                                tx, rts >>
+
+r_begun(self) == /\ pc[self] = "r_begun"
+                 /\ idxs' = [idxs EXCEPT ![self] = <<rts[self]>>]
+                 /\ pc' = [pc EXCEPT ![self] = "wait_fast"]
+                 /\ UNCHANGED << scen, doneUntil, lastIndex, wins, curw, mu, 
+                                 waiters, xl, nextIdx, bret, dcall, examined, 
+                                 late, raced, waitBad, applied, readBad, wref, 
+                                 ri, opi, kind, k, delta, phase, eidx, ewk, 
+                                 slcur, d, nxt, newBase, newSlots, mine, tx, 
+                                 rts >>
+
+c_lock(self) == /\ pc[self] = "c_lock"
+                /\ xl = 0
+                /\ xl' = self
+                /\ mine' = [mine EXCEPT ![self] = <<nextIdx>>]
+                /\ nextIdx' = nextIdx + 1
+                /\ pc' = [pc EXCEPT ![self] = "c_ts"]
+                /\ UNCHANGED << scen, doneUntil, lastIndex, wins, curw, mu, 
+                                waiters, bret, dcall, examined, late, raced, 
+                                waitBad, applied, readBad, wref, ri, opi, kind, 
+                                idxs, k, delta, phase, eidx, ewk, slcur, d, 
+                                nxt, newBase, newSlots, tx, rts >>
+
+c_ts(self) == /\ pc[self] = "c_ts"
+              /\ kind' = [kind EXCEPT ![self] = "Begin"]
+              /\ tx' = [tx EXCEPT ![self] = "commit"]
+              /\ idxs' = [idxs EXCEPT ![self] = mine[self]]
+              /\ k' = [k EXCEPT ![self] = 1]
+              /\ delta' = [delta EXCEPT ![self] = 1]
+              /\ IF ~CountFirst
+                    THEN /\ phase' = [phase EXCEPT ![self] = "pre"]
+                         /\ pc' = [pc EXCEPT ![self] = "last_load"]
+                         /\ UNCHANGED << eidx, ewk >>
+                    ELSE /\ phase' = [phase EXCEPT ![self] = "add"]
+                         /\ eidx' = [eidx EXCEPT ![self] = mine[self][1]]
+                         /\ ewk' = [ewk EXCEPT ![self] = "add"]
+                         /\ pc' = [pc EXCEPT ![self] = "win_load"]
+              /\ UNCHANGED << scen, doneUntil, lastIndex, wins, curw, mu, 
+                              waiters, xl, nextIdx, bret, dcall, examined, 
+                              late, raced, waitBad, applied, readBad, wref, ri, 
+                              opi, slcur, d, nxt, newBase, newSlots, mine, rts >>
+
+c_begun(self) == /\ pc[self] = "c_begun"
+                 /\ xl' = 0
+                 /\ applied' = (applied \cup {mine[self][1]})
+                 /\ pc' = [pc EXCEPT ![self] = "c_done"]
+                 /\ UNCHANGED << scen, doneUntil, lastIndex, wins, curw, mu, 
+                                 waiters, nextIdx, bret, dcall, examined, late, 
+                                 raced, waitBad, readBad, wref, ri, opi, kind, 
+                                 idxs, k, delta, phase, eidx, ewk, slcur, d, 
+                                 nxt, newBase, newSlots, mine, tx, rts >>
+
+c_done(self) == /\ pc[self] = "c_done"
+                /\ kind' = [kind EXCEPT ![self] = "Done"]
+                /\ tx' = [tx EXCEPT ![self] = "done"]
+                /\ idxs' = [idxs EXCEPT ![self] = mine[self]]
+                /\ k' = [k EXCEPT ![self] = 1]
+                /\ delta' = [delta EXCEPT ![self] = -1]
+                /\ phase' = [phase EXCEPT ![self] = "add"]
+                /\ dcall' = [i \in 1..MaxI |-> dcall[i] + Count(mine[self], i)]
+                /\ eidx' = [eidx EXCEPT ![self] = mine[self][1]]
+                /\ ewk' = [ewk EXCEPT ![self] = "add"]
+                /\ pc' = [pc EXCEPT ![self] = "win_load"]
+                /\ UNCHANGED << scen, doneUntil, lastIndex, wins, curw, mu, 
+                                waiters, xl, nextIdx, bret, examined, late, 
+                                raced, waitBad, applied, readBad, wref, ri, 
+                                opi, slcur, d, nxt, newBase, newSlots, mine, 
+                                rts >>
 
 last_load(self) == /\ pc[self] = "last_load"
                    /\ slcur' = [slcur EXCEPT ![self] = lastIndex]
@@ -367,9 +548,9 @@ last_load(self) == /\ pc[self] = "last_load"
                               /\ UNCHANGED << phase, eidx, ewk >>
                    /\ UNCHANGED << scen, doneUntil, lastIndex, wins, curw, mu, 
                                    waiters, xl, nextIdx, bret, dcall, examined, 
-                                   late, raced, waitBad, wref, ri, opi, kind, 
-                                   idxs, k, delta, d, nxt, newBase, newSlots, 
-                                   mine >>
+                                   late, raced, waitBad, applied, readBad, 
+                                   wref, ri, opi, kind, idxs, k, delta, d, nxt, 
+                                   newBase, newSlots, mine, tx, rts >>
 
 last_cas(self) == /\ pc[self] = "last_cas"
                   /\ IF lastIndex = slcur[self]
@@ -386,8 +567,9 @@ last_cas(self) == /\ pc[self] = "last_cas"
                              /\ UNCHANGED << lastIndex, phase, eidx, ewk >>
                   /\ UNCHANGED << scen, doneUntil, wins, curw, mu, waiters, xl, 
                                   nextIdx, bret, dcall, examined, late, raced, 
-                                  waitBad, wref, ri, opi, kind, idxs, k, delta, 
-                                  slcur, d, nxt, newBase, newSlots, mine >>
+                                  waitBad, applied, readBad, wref, ri, opi, 
+                                  kind, idxs, k, delta, slcur, d, nxt, newBase, 
+                                  newSlots, mine, tx, rts >>
 
 win_load(self) == /\ pc[self] = "win_load"
                   /\ wref' = [wref EXCEPT ![self] = curw]
@@ -398,9 +580,10 @@ win_load(self) == /\ pc[self] = "win_load"
                         ELSE /\ pc' = [pc EXCEPT ![self] = "win_lock"]
                   /\ UNCHANGED << scen, doneUntil, lastIndex, wins, curw, mu, 
                                   waiters, xl, nextIdx, bret, dcall, examined, 
-                                  late, raced, waitBad, ri, opi, kind, idxs, k, 
-                                  delta, phase, eidx, ewk, slcur, d, nxt, 
-                                  newBase, newSlots, mine >>
+                                  late, raced, waitBad, applied, readBad, ri, 
+                                  opi, kind, idxs, k, delta, phase, eidx, ewk, 
+                                  slcur, d, nxt, newBase, newSlots, mine, tx, 
+                                  rts >>
 
 win_lock(self) == /\ pc[self] = "win_lock"
                   /\ mu = 0
@@ -414,9 +597,10 @@ win_lock(self) == /\ pc[self] = "win_lock"
                              /\ pc' = [pc EXCEPT ![self] = "rb_done"]
                   /\ UNCHANGED << scen, doneUntil, lastIndex, wins, curw, 
                                   waiters, xl, nextIdx, bret, dcall, examined, 
-                                  late, raced, waitBad, ri, opi, kind, idxs, k, 
-                                  delta, phase, eidx, ewk, slcur, d, nxt, 
-                                  newBase, newSlots, mine >>
+                                  late, raced, waitBad, applied, readBad, ri, 
+                                  opi, kind, idxs, k, delta, phase, eidx, ewk, 
+                                  slcur, d, nxt, newBase, newSlots, mine, tx, 
+                                  rts >>
 
 rb_done(self) == /\ pc[self] = "rb_done"
                  /\ LET nb == doneUntil + 1 IN
@@ -427,9 +611,9 @@ rb_done(self) == /\ pc[self] = "rb_done"
                  /\ pc' = [pc EXCEPT ![self] = "rb_copy"]
                  /\ UNCHANGED << scen, doneUntil, lastIndex, wins, curw, mu, 
                                  waiters, xl, nextIdx, bret, dcall, examined, 
-                                 late, raced, waitBad, wref, opi, kind, idxs, 
-                                 k, delta, phase, eidx, ewk, slcur, d, nxt, 
-                                 mine >>
+                                 late, raced, waitBad, applied, readBad, wref, 
+                                 opi, kind, idxs, k, delta, phase, eidx, ewk, 
+                                 slcur, d, nxt, mine, tx, rts >>
 
 rb_copy(self) == /\ pc[self] = "rb_copy"
                  /\ LET cnt == wins[wref[self]].slots[ri[self]] IN
@@ -445,9 +629,9 @@ rb_copy(self) == /\ pc[self] = "rb_copy"
                             /\ pc' = [pc EXCEPT ![self] = "rb_copy"]
                  /\ UNCHANGED << scen, doneUntil, lastIndex, wins, curw, mu, 
                                  waiters, xl, nextIdx, bret, dcall, examined, 
-                                 late, raced, waitBad, wref, opi, kind, idxs, 
-                                 k, delta, phase, eidx, ewk, slcur, d, nxt, 
-                                 newBase, mine >>
+                                 late, raced, waitBad, applied, readBad, wref, 
+                                 opi, kind, idxs, k, delta, phase, eidx, ewk, 
+                                 slcur, d, nxt, newBase, mine, tx, rts >>
 
 rb_store(self) == /\ pc[self] = "rb_store"
                   /\ curw' = Len(wins) + 1
@@ -467,9 +651,9 @@ rb_store(self) == /\ pc[self] = "rb_store"
                              /\ late' = late
                   /\ UNCHANGED << scen, doneUntil, lastIndex, waiters, xl, 
                                   nextIdx, bret, dcall, examined, raced, 
-                                  waitBad, ri, opi, kind, idxs, k, delta, 
-                                  phase, eidx, ewk, slcur, d, nxt, newBase, 
-                                  newSlots, mine >>
+                                  waitBad, applied, readBad, ri, opi, kind, 
+                                  idxs, k, delta, phase, eidx, ewk, slcur, d, 
+                                  nxt, newBase, newSlots, mine, tx, rts >>
 
 add_slot(self) == /\ pc[self] = "add_slot"
                   /\ IF delta[self] = 1
@@ -489,18 +673,20 @@ add_slot(self) == /\ pc[self] = "add_slot"
                   /\ pc' = [pc EXCEPT ![self] = "adv_done"]
                   /\ UNCHANGED << scen, doneUntil, lastIndex, curw, mu, 
                                   waiters, xl, nextIdx, bret, dcall, examined, 
-                                  waitBad, wref, ri, opi, kind, idxs, k, delta, 
-                                  phase, eidx, ewk, slcur, d, nxt, newBase, 
-                                  newSlots, mine >>
+                                  waitBad, applied, readBad, wref, ri, opi, 
+                                  kind, idxs, k, delta, phase, eidx, ewk, 
+                                  slcur, d, nxt, newBase, newSlots, mine, tx, 
+                                  rts >>
 
 adv_done(self) == /\ pc[self] = "adv_done"
                   /\ d' = [d EXCEPT ![self] = doneUntil]
                   /\ pc' = [pc EXCEPT ![self] = "adv_last"]
                   /\ UNCHANGED << scen, doneUntil, lastIndex, wins, curw, mu, 
                                   waiters, xl, nextIdx, bret, dcall, examined, 
-                                  late, raced, waitBad, wref, ri, opi, kind, 
-                                  idxs, k, delta, phase, eidx, ewk, slcur, nxt, 
-                                  newBase, newSlots, mine >>
+                                  late, raced, waitBad, applied, readBad, wref, 
+                                  ri, opi, kind, idxs, k, delta, phase, eidx, 
+                                  ewk, slcur, nxt, newBase, newSlots, mine, tx, 
+                                  rts >>
 
 adv_last(self) == /\ pc[self] = "adv_last"
                   /\ IF d[self] >= lastIndex
@@ -509,37 +695,49 @@ adv_last(self) == /\ pc[self] = "adv_last"
                                         /\ k' = [k EXCEPT ![self] = k[self] + 1]
                                         /\ ewk' = [ewk EXCEPT ![self] = "add"]
                                         /\ pc' = [pc EXCEPT ![self] = "win_load"]
-                                        /\ UNCHANGED << xl, bret, opi, phase >>
+                                        /\ UNCHANGED << xl, bret, opi, phase, 
+                                                        tx >>
                                    ELSE /\ IF phase[self] = "add" /\ kind[self] = "Begin" /\ CountFirst
                                               THEN /\ phase' = [phase EXCEPT ![self] = "post"]
                                                    /\ pc' = [pc EXCEPT ![self] = "last_load"]
                                                    /\ UNCHANGED << xl, bret, 
-                                                                   opi >>
+                                                                   opi, tx >>
                                               ELSE /\ IF kind[self] = "Begin"
                                                          THEN /\ bret' = [i \in 1..MaxI |-> bret[i] + Count(idxs[self], i)]
-                                                              /\ IF xl = self
-                                                                    THEN /\ xl' = 0
-                                                                    ELSE /\ TRUE
-                                                                         /\ xl' = xl
-                                                         ELSE /\ TRUE
+                                                              /\ IF tx[self] = "commit"
+                                                                    THEN /\ pc' = [pc EXCEPT ![self] = "c_begun"]
+                                                                         /\ UNCHANGED << xl, 
+                                                                                         opi >>
+                                                                    ELSE /\ IF xl = self
+                                                                               THEN /\ xl' = 0
+                                                                               ELSE /\ TRUE
+                                                                                    /\ xl' = xl
+                                                                         /\ IF opi[self] + 1 > Len(Prog(self))
+                                                                               THEN /\ opi' = [opi EXCEPT ![self] = opi[self] + 1]
+                                                                                    /\ pc' = [pc EXCEPT ![self] = "Done"]
+                                                                               ELSE /\ opi' = [opi EXCEPT ![self] = opi[self] + 1]
+                                                                                    /\ pc' = [pc EXCEPT ![self] = "op"]
+                                                              /\ tx' = tx
+                                                         ELSE /\ tx' = [tx EXCEPT ![self] = ""]
+                                                              /\ IF opi[self] + 1 > Len(Prog(self))
+                                                                    THEN /\ opi' = [opi EXCEPT ![self] = opi[self] + 1]
+                                                                         /\ pc' = [pc EXCEPT ![self] = "Done"]
+                                                                    ELSE /\ opi' = [opi EXCEPT ![self] = opi[self] + 1]
+                                                                         /\ pc' = [pc EXCEPT ![self] = "op"]
                                                               /\ UNCHANGED << xl, 
                                                                               bret >>
-                                                   /\ IF opi[self] + 1 > Len(Prog(self))
-                                                         THEN /\ opi' = [opi EXCEPT ![self] = opi[self] + 1]
-                                                              /\ pc' = [pc EXCEPT ![self] = "Done"]
-                                                         ELSE /\ opi' = [opi EXCEPT ![self] = opi[self] + 1]
-                                                              /\ pc' = [pc EXCEPT ![self] = "op"]
                                                    /\ phase' = phase
                                         /\ UNCHANGED << k, eidx, ewk >>
                              /\ nxt' = nxt
                         ELSE /\ nxt' = [nxt EXCEPT ![self] = d[self] + 1]
                              /\ pc' = [pc EXCEPT ![self] = "adv_win"]
                              /\ UNCHANGED << xl, bret, opi, k, phase, eidx, 
-                                             ewk >>
+                                             ewk, tx >>
                   /\ UNCHANGED << scen, doneUntil, lastIndex, wins, curw, mu, 
                                   waiters, nextIdx, dcall, examined, late, 
-                                  raced, waitBad, wref, ri, kind, idxs, delta, 
-                                  slcur, d, newBase, newSlots, mine >>
+                                  raced, waitBad, applied, readBad, wref, ri, 
+                                  kind, idxs, delta, slcur, d, newBase, 
+                                  newSlots, mine, rts >>
 
 adv_win(self) == /\ pc[self] = "adv_win"
                  /\ wref' = [wref EXCEPT ![self] = curw]
@@ -551,9 +749,9 @@ adv_win(self) == /\ pc[self] = "adv_win"
                             /\ pc' = [pc EXCEPT ![self] = "win_load"]
                  /\ UNCHANGED << scen, doneUntil, lastIndex, wins, curw, mu, 
                                  waiters, xl, nextIdx, bret, dcall, examined, 
-                                 late, raced, waitBad, ri, opi, kind, idxs, k, 
-                                 delta, phase, slcur, d, nxt, newBase, 
-                                 newSlots, mine >>
+                                 late, raced, waitBad, applied, readBad, ri, 
+                                 opi, kind, idxs, k, delta, phase, slcur, d, 
+                                 nxt, newBase, newSlots, mine, tx, rts >>
 
 adv_slot(self) == /\ pc[self] = "adv_slot"
                   /\ IF wins[wref[self]].slots[nxt[self] - wins[wref[self]].base + 1] > 0
@@ -562,26 +760,37 @@ adv_slot(self) == /\ pc[self] = "adv_slot"
                                         /\ k' = [k EXCEPT ![self] = k[self] + 1]
                                         /\ ewk' = [ewk EXCEPT ![self] = "add"]
                                         /\ pc' = [pc EXCEPT ![self] = "win_load"]
-                                        /\ UNCHANGED << xl, bret, opi, phase >>
+                                        /\ UNCHANGED << xl, bret, opi, phase, 
+                                                        tx >>
                                    ELSE /\ IF phase[self] = "add" /\ kind[self] = "Begin" /\ CountFirst
                                               THEN /\ phase' = [phase EXCEPT ![self] = "post"]
                                                    /\ pc' = [pc EXCEPT ![self] = "last_load"]
                                                    /\ UNCHANGED << xl, bret, 
-                                                                   opi >>
+                                                                   opi, tx >>
                                               ELSE /\ IF kind[self] = "Begin"
                                                          THEN /\ bret' = [i \in 1..MaxI |-> bret[i] + Count(idxs[self], i)]
-                                                              /\ IF xl = self
-                                                                    THEN /\ xl' = 0
-                                                                    ELSE /\ TRUE
-                                                                         /\ xl' = xl
-                                                         ELSE /\ TRUE
+                                                              /\ IF tx[self] = "commit"
+                                                                    THEN /\ pc' = [pc EXCEPT ![self] = "c_begun"]
+                                                                         /\ UNCHANGED << xl, 
+                                                                                         opi >>
+                                                                    ELSE /\ IF xl = self
+                                                                               THEN /\ xl' = 0
+                                                                               ELSE /\ TRUE
+                                                                                    /\ xl' = xl
+                                                                         /\ IF opi[self] + 1 > Len(Prog(self))
+                                                                               THEN /\ opi' = [opi EXCEPT ![self] = opi[self] + 1]
+                                                                                    /\ pc' = [pc EXCEPT ![self] = "Done"]
+                                                                               ELSE /\ opi' = [opi EXCEPT ![self] = opi[self] + 1]
+                                                                                    /\ pc' = [pc EXCEPT ![self] = "op"]
+                                                              /\ tx' = tx
+                                                         ELSE /\ tx' = [tx EXCEPT ![self] = ""]
+                                                              /\ IF opi[self] + 1 > Len(Prog(self))
+                                                                    THEN /\ opi' = [opi EXCEPT ![self] = opi[self] + 1]
+                                                                         /\ pc' = [pc EXCEPT ![self] = "Done"]
+                                                                    ELSE /\ opi' = [opi EXCEPT ![self] = opi[self] + 1]
+                                                                         /\ pc' = [pc EXCEPT ![self] = "op"]
                                                               /\ UNCHANGED << xl, 
                                                                               bret >>
-                                                   /\ IF opi[self] + 1 > Len(Prog(self))
-                                                         THEN /\ opi' = [opi EXCEPT ![self] = opi[self] + 1]
-                                                              /\ pc' = [pc EXCEPT ![self] = "Done"]
-                                                         ELSE /\ opi' = [opi EXCEPT ![self] = opi[self] + 1]
-                                                              /\ pc' = [pc EXCEPT ![self] = "op"]
                                                    /\ phase' = phase
                                         /\ UNCHANGED << k, eidx, ewk >>
                              /\ UNCHANGED << examined, raced >>
@@ -592,11 +801,12 @@ adv_slot(self) == /\ pc[self] = "adv_slot"
                                         /\ raced' = raced
                              /\ pc' = [pc EXCEPT ![self] = "adv_cas"]
                              /\ UNCHANGED << xl, bret, opi, k, phase, eidx, 
-                                             ewk >>
+                                             ewk, tx >>
                   /\ UNCHANGED << scen, doneUntil, lastIndex, wins, curw, mu, 
-                                  waiters, nextIdx, dcall, late, waitBad, wref, 
-                                  ri, kind, idxs, delta, slcur, d, nxt, 
-                                  newBase, newSlots, mine >>
+                                  waiters, nextIdx, dcall, late, waitBad, 
+                                  applied, readBad, wref, ri, kind, idxs, 
+                                  delta, slcur, d, nxt, newBase, newSlots, 
+                                  mine, rts >>
 
 adv_cas(self) == /\ pc[self] = "adv_cas"
                  /\ IF doneUntil = d[self]
@@ -606,9 +816,9 @@ adv_cas(self) == /\ pc[self] = "adv_cas"
                             /\ UNCHANGED doneUntil
                  /\ UNCHANGED << scen, lastIndex, wins, curw, mu, waiters, xl, 
                                  nextIdx, bret, dcall, examined, late, raced, 
-                                 waitBad, wref, ri, opi, kind, idxs, k, delta, 
-                                 phase, eidx, ewk, slcur, d, nxt, newBase, 
-                                 newSlots, mine >>
+                                 waitBad, applied, readBad, wref, ri, opi, 
+                                 kind, idxs, k, delta, phase, eidx, ewk, slcur, 
+                                 d, nxt, newBase, newSlots, mine, tx, rts >>
 
 notify_lock(self) == /\ pc[self] = "notify_lock"
                      /\ mu = 0
@@ -616,13 +826,17 @@ notify_lock(self) == /\ pc[self] = "notify_lock"
                      /\ pc' = [pc EXCEPT ![self] = "adv_done"]
                      /\ UNCHANGED << scen, doneUntil, lastIndex, wins, curw, 
                                      mu, xl, nextIdx, bret, dcall, examined, 
-                                     late, raced, waitBad, wref, ri, opi, kind, 
-                                     idxs, k, delta, phase, eidx, ewk, slcur, 
-                                     d, nxt, newBase, newSlots, mine >>
+                                     late, raced, waitBad, applied, readBad, 
+                                     wref, ri, opi, kind, idxs, k, delta, 
+                                     phase, eidx, ewk, slcur, d, nxt, newBase, 
+                                     newSlots, mine, tx, rts >>
 
 wait_fast(self) == /\ pc[self] = "wait_fast"
                    /\ IF doneUntil >= idxs[self][1]
-                         THEN /\ waitBad' = (waitBad \cup {j \in PendingSet : j <= idxs[self][1]})
+                         THEN /\ IF kind[self] = "Wait"
+                                    THEN /\ waitBad' = (waitBad \cup {j \in PendingSet : j <= idxs[self][1]})
+                                    ELSE /\ TRUE
+                                         /\ UNCHANGED waitBad
                               /\ IF opi[self] + 1 > Len(Prog(self))
                                     THEN /\ opi' = [opi EXCEPT ![self] = opi[self] + 1]
                                          /\ pc' = [pc EXCEPT ![self] = "Done"]
@@ -632,14 +846,18 @@ wait_fast(self) == /\ pc[self] = "wait_fast"
                               /\ UNCHANGED << waitBad, opi >>
                    /\ UNCHANGED << scen, doneUntil, lastIndex, wins, curw, mu, 
                                    waiters, xl, nextIdx, bret, dcall, examined, 
-                                   late, raced, wref, ri, kind, idxs, k, delta, 
-                                   phase, eidx, ewk, slcur, d, nxt, newBase, 
-                                   newSlots, mine >>
+                                   late, raced, applied, readBad, wref, ri, 
+                                   kind, idxs, k, delta, phase, eidx, ewk, 
+                                   slcur, d, nxt, newBase, newSlots, mine, tx, 
+                                   rts >>
 
 wait_lock(self) == /\ pc[self] = "wait_lock"
                    /\ mu = 0
                    /\ IF doneUntil >= idxs[self][1]
-                         THEN /\ waitBad' = (waitBad \cup {j \in PendingSet : j <= idxs[self][1]})
+                         THEN /\ IF kind[self] = "Wait"
+                                    THEN /\ waitBad' = (waitBad \cup {j \in PendingSet : j <= idxs[self][1]})
+                                    ELSE /\ TRUE
+                                         /\ UNCHANGED waitBad
                               /\ IF opi[self] + 1 > Len(Prog(self))
                                     THEN /\ opi' = [opi EXCEPT ![self] = opi[self] + 1]
                                          /\ pc' = [pc EXCEPT ![self] = "Done"]
@@ -651,13 +869,16 @@ wait_lock(self) == /\ pc[self] = "wait_lock"
                               /\ UNCHANGED << waitBad, opi >>
                    /\ UNCHANGED << scen, doneUntil, lastIndex, wins, curw, mu, 
                                    xl, nextIdx, bret, dcall, examined, late, 
-                                   raced, wref, ri, kind, idxs, k, delta, 
-                                   phase, eidx, ewk, slcur, d, nxt, newBase, 
-                                   newSlots, mine >>
+                                   raced, applied, readBad, wref, ri, kind, 
+                                   idxs, k, delta, phase, eidx, ewk, slcur, d, 
+                                   nxt, newBase, newSlots, mine, tx, rts >>
 
 wait_park(self) == /\ pc[self] = "wait_park"
                    /\ idxs[self][1] \notin waiters
-                   /\ waitBad' = (waitBad \cup {j \in PendingSet : j <= idxs[self][1]})
+                   /\ IF kind[self] = "Wait"
+                         THEN /\ waitBad' = (waitBad \cup {j \in PendingSet : j <= idxs[self][1]})
+                         ELSE /\ TRUE
+                              /\ UNCHANGED waitBad
                    /\ IF opi[self] + 1 > Len(Prog(self))
                          THEN /\ opi' = [opi EXCEPT ![self] = opi[self] + 1]
                               /\ pc' = [pc EXCEPT ![self] = "Done"]
@@ -665,11 +886,14 @@ wait_park(self) == /\ pc[self] = "wait_park"
                               /\ pc' = [pc EXCEPT ![self] = "op"]
                    /\ UNCHANGED << scen, doneUntil, lastIndex, wins, curw, mu, 
                                    waiters, xl, nextIdx, bret, dcall, examined, 
-                                   late, raced, wref, ri, kind, idxs, k, delta, 
-                                   phase, eidx, ewk, slcur, d, nxt, newBase, 
-                                   newSlots, mine >>
+                                   late, raced, applied, readBad, wref, ri, 
+                                   kind, idxs, k, delta, phase, eidx, ewk, 
+                                   slcur, d, nxt, newBase, newSlots, mine, tx, 
+                                   rts >>
 
-thread(self) == op(self) \/ xlock(self) \/ last_load(self)
+thread(self) == op(self) \/ xlock(self) \/ r_next(self) \/ r_last(self)
+                   \/ r_begun(self) \/ c_lock(self) \/ c_ts(self)
+                   \/ c_begun(self) \/ c_done(self) \/ last_load(self)
                    \/ last_cas(self) \/ win_load(self) \/ win_lock(self)
                    \/ rb_done(self) \/ rb_copy(self) \/ rb_store(self)
                    \/ add_slot(self) \/ adv_done(self) \/ adv_last(self)
@@ -695,11 +919,12 @@ Termination == <>(\A self \in ProcSet: pc[self] = "Done")
 \* a schedule entry is 32 * thread + index of the label the thread was parked at (compact for TLC)
 Labels == <<"op", "xlock", "last_load", "last_cas", "win_load", "win_lock", "rb_done", "rb_copy", "rb_store",
             "add_slot", "adv_done", "adv_last", "adv_win", "adv_slot", "adv_cas", "notify_lock",
-            "wait_fast", "wait_lock", "wait_park">>
+            "wait_fast", "wait_lock", "wait_park",
+            "r_next", "r_last", "r_begun", "c_lock", "c_ts", "c_begun", "c_done">>
 LabelIdx(l) == CHOOSE i \in 1..Len(Labels) : Labels[i] = l
 Blocked(t) == \/ pc[t] = "Done"
               \/ pc[t] \in {"win_lock", "notify_lock", "wait_lock"} /\ mu # 0
-              \/ pc[t] = "xlock" /\ xl # 0
+              \/ pc[t] \in {"xlock", "c_lock"} /\ xl # 0
               \/ pc[t] = "wait_park" /\ idxs[t][1] \in waiters
 Quiescent  == \A t \in Threads : Blocked(t)
 
@@ -722,12 +947,20 @@ View == vars
 EmitHist == (Emit /\ Quiescent) =>
               PrintT(<<"SCHED", ToJson([w |-> scen.w, progs |-> scen.progs, hist |-> hist])>>)
 
+\* expected-red configurations print the violating schedule as JSON (replayed on the real code)
+Cex(inv) == inv \/ (PrintT(<<"CEX", ToJson([w |-> scen.w, progs |-> scen.progs, hist |-> hist])>>) /\ FALSE)
+
 \* ------------------------------------------------------------ properties (M1)
 Mono    == [][doneUntil' >= doneUntil]_varsH
 NoPass  == \A i \in PendingSet : doneUntil < i
 WaitOK  == waitBad = {}
+\* C05 at this level: a transaction never reads at a timestamp whose commit is not applied yet
+TxnReadOK  == readBad = {}
+TxnReadOKC == Cex(TxnReadOK)
 \* Safe-envelope characterisation of the code with concurrent, unordered Begin calls:
 \* the mark passes a pending index only if that index carries one of the two witnesses.
+NoPassC  == Cex(NoPass)
+WaitOKC  == Cex(WaitOK)
 NoPassOrWitness == \A i \in PendingSet : doneUntil >= i => i \in late \cup raced
 WaitOKOrWitness == waitBad \subseteq late \cup raced
 \* sanity: slots of the published window never go negative while nothing is tainted
@@ -772,8 +1005,8 @@ ScenWitness3 == {
 ScenLateBegin   == { [w |-> 4, progs |-> << <<B(1), D(1)>>, <<B(2), D(2)>> >>] }
 ScenWindowRace  == { [w |-> 2, progs |-> << <<BN(1), DMine, BN(1), DMine>>, <<BN(1), DMine>> >>] }
 
-\* expected-red configurations print the violating schedule as JSON (replayed on the real code)
-Cex(inv) == inv \/ (PrintT(<<"CEX", ToJson([w |-> scen.w, progs |-> scen.progs, hist |-> hist])>>) /\ FALSE)
-NoPassC  == Cex(NoPass)
-WaitOKC  == Cex(WaitOK)
+\* two committers and one reader on the oracle (window never rebuilt: 65536 slots in the DB)
+ScenTxn3 == { [w |-> 4, progs |-> << <<TxB, TxC>>, <<TxB, TxC>>, <<TxB, TxR, TxR>> >>] }
+ScenTxn2 == { [w |-> 4, progs |-> << <<TxB, TxC, TxB, TxC>>, <<TxB, TxR, TxR>> >>],
+              [w |-> 4, progs |-> << <<TxB, TxC>>, <<TxB, TxC, TxB, TxR>> >>] }
 =============================================================================
